@@ -54,9 +54,29 @@ def ensure_config(repo=REPO):
         raise AnalysisBroken('libTMCG_config.h missing: /repo is not configured (run ./configure in a scratch copy)')
 
 
-def run_unit(unit, outdir, repo, ndebug, root):
-    out = os.path.join(outdir, os.path.basename(unit)[:-3] + '.json')
+def headers_hash(repo):
+    h = hashlib.sha256()
+    for f in sorted(glob.glob(os.path.join(repo, 'src', '*.hh')) + glob.glob(os.path.join(repo, 'src', '*.h')) +
+                    [os.path.join(repo, 'libTMCG_config.h')]):
+        if os.path.exists(f):
+            h.update(os.path.basename(f).encode())
+            h.update(open(f, 'rb').read())
+    h.update(open(TOOL, 'rb').read())
+    return h.hexdigest()
+
+
+def run_unit(unit, repo, ndebug, root, hh):
+    """per-unit cache keyed by the content of the unit, of every header and of the extractor; the
+    facts are re-based textually when the same content is parsed under another root"""
+    h = hashlib.sha256()
+    h.update(hh.encode())
+    h.update(os.path.basename(unit).encode())
+    h.update(open(unit, 'rb').read())
+    h.update(b'nd' if ndebug else b'd')
+    os.makedirs(os.path.join(CACHE, 'units'), exist_ok=True)
+    out = os.path.join(CACHE, 'units', h.hexdigest()[:24] + '.json')
     if os.path.exists(out):
+        os.utime(out)
         return out, ''
     tmp = out + '.tmp%d' % os.getpid()
     with open(tmp, 'wb') as fo:
@@ -64,6 +84,7 @@ def run_unit(unit, outdir, repo, ndebug, root):
     if p.returncode != 0:
         os.unlink(tmp)
         return None, p.stderr.decode(errors='replace')[-2000:]
+    open(out + '.origin', 'w').write(repo)
     os.rename(tmp, out)
     return out, ''
 
@@ -75,19 +96,20 @@ def extract(repo=REPO, ndebug=False, units=None, root=None, tag='lib'):
     if units is None:
         units = lib_units(repo)
     root = root or os.path.join(repo, 'src')
-    key = tree_hash(repo, extra=[u for u in units if not u.startswith(os.path.join(repo, 'src'))])
-    outdir = os.path.join(CACHE, '%s-%s-%s' % (tag, key, 'nd' if ndebug else 'd'))
-    os.makedirs(outdir, exist_ok=True)
-    # prune old cache dirs (keep the 6 most recent)
-    ds = sorted((d for d in glob.glob(os.path.join(CACHE, '*')) if os.path.isdir(d)), key=os.path.getmtime)
-    for d in ds[:-6]:
-        if d != outdir:
-            subprocess.run(['rm', '-rf', d])
+    hh = headers_hash(repo)
     with ThreadPoolExecutor(max_workers=16) as ex:
-        res = list(ex.map(lambda u: run_unit(u, outdir, repo, ndebug, root), units))
+        res = list(ex.map(lambda u: run_unit(u, repo, ndebug, root, hh), units))
     bad = [(u, e) for u, (o, e) in zip(units, res) if o is None]
     if bad:
         raise AnalysisBroken('units failed to parse: ' + '; '.join('%s: %s' % (u, e.strip().splitlines()[-1] if e.strip() else '?') for u, e in bad))
+    # prune: keep the 400 most recently used unit files
+    fs = sorted(glob.glob(os.path.join(CACHE, 'units', '*.json')), key=os.path.getmtime)
+    for f in fs[:-400]:
+        try:
+            os.unlink(f)
+            os.unlink(f + '.origin')
+        except OSError:
+            pass
     return [o for o, _ in res]
 
 
@@ -102,7 +124,14 @@ class Program:
         self.globals = {}
         self.units = []
         for f in files:
-            d = json.load(open(f))
+            txt = open(f).read()
+            try:
+                origin = open(f + '.origin').read()
+            except OSError:
+                origin = repo
+            if origin != repo:
+                txt = txt.replace('"' + origin + '/', '"' + repo + '/')
+            d = json.loads(txt)
             self.units.append(d['unit'])
             for fn in d['functions']:
                 k = fn['key']
